@@ -140,7 +140,7 @@ func symExprB(v ssa.Value, depth int, bind map[*ssa.Parameter]string) string {
 	case *ssa.Call:
 		// a pure single-expression helper of the universe is printed as its body with the arguments substituted
 		if sc := x.Call.StaticCallee(); sc != nil && symU != nil && symU.InUniverse(sc) && len(sc.Blocks) == 1 && sc.Signature.Results().Len() == 1 {
-			if ret, ok := sc.Blocks[0].Instrs[len(sc.Blocks[0].Instrs)-1].(*ssa.Return); ok && pureBlock(sc.Blocks[0]) {
+			if ret, ok := sc.Blocks[0].Instrs[len(sc.Blocks[0].Instrs)-1].(*ssa.Return); ok && storeFreeBlock(sc.Blocks[0]) {
 				nb := map[*ssa.Parameter]string{}
 				for i, a := range callArgs(&x.Call) {
 					if i < len(sc.Params) {
@@ -271,6 +271,17 @@ func pureBlock(b *ssa.BasicBlock) bool {
 			if sc := x.Call.StaticCallee(); sc != nil && sc.Pkg != nil && sc.Pkg.Pkg.Path() == "math/bits" {
 				continue
 			}
+			return false
+		}
+	}
+	return true
+}
+
+// storeFreeBlock: the block writes no memory itself (it may call other functions, which are printed as calls).
+func storeFreeBlock(b *ssa.BasicBlock) bool {
+	for _, ins := range b.Instrs {
+		switch ins.(type) {
+		case *ssa.Store, *ssa.MapUpdate, *ssa.Send, *ssa.Go, *ssa.Defer, *ssa.Panic:
 			return false
 		}
 	}
